@@ -9,7 +9,11 @@ import facts as F, core as C
 
 NOT_ANCHORS = {"txtpp::fs::path::abs_path::create_file",
                # a one-line adaptor around iterate_directive's result: R07.4 / R04.1 are stated on its caller
-               "<std::result::Result<T, error_stack::Report<txtpp::error::PpError>> as txtpp::core::execute::pp::IgnoreIfCleaning>::ignore_err_if_cleaning"}
+               "<std::result::Result<T, error_stack::Report<txtpp::error::PpError>> as txtpp::core::execute::pp::IgnoreIfCleaning>::ignore_err_if_cleaning",
+               # the two mode gates of execute_directive (clean / collect-deps): what a directive does in which mode and pass is read off
+               # execute_directive's normal form, wherever the decision is written
+               "txtpp::core::execute::pp::Pp::<'a>::execute_in_collect_deps_mode",
+               "txtpp::core::execute::pp::Pp::<'a>::execute_in_clean_mode"}
 fx = F.extract("/repo", "default")
 names, params = set(), {}
 for k in ("lib", "bin"):
